@@ -240,17 +240,35 @@ fn send_request_failed_error(
     }))
 }
 
+/// The analyzer reports positions as byte offsets into a line, while LSP positions
+/// count UTF-16 code units: the two differ as soon as non-ASCII text precedes the
+/// position. An offset inside a multi-byte character is floored to its start.
+fn utf16_offset(line: &str, byte_offset: usize) -> u32 {
+    let mut end = byte_offset.min(line.len());
+    while !line.is_char_boundary(end) {
+        end -= 1;
+    }
+    line[..end].encode_utf16().count() as u32
+}
+
 fn get_semantic_tokens(analyzer: &SourceFileAnalyzer) -> SemanticTokens {
     let mut data: Vec<SemanticToken> = vec![];
     let mut prev_line_number = 0;
+    let source_lines = analyzer.source_file_lines();
     for (line_number, line) in analyzer.token_types().iter().enumerate() {
+        let source_line = source_lines
+            .get(line_number)
+            .map(|line| line.as_str())
+            .unwrap_or("");
         let mut prev_token_start = 0;
         for (abasic_token_type, range) in line {
             let delta_line = (line_number - prev_line_number) as u32;
             prev_line_number = line_number;
-            let delta_start = (range.start - prev_token_start) as u32;
-            prev_token_start = range.start;
-            let length = range.len() as u32;
+            let token_start = utf16_offset(source_line, range.start);
+            let token_end = utf16_offset(source_line, range.end);
+            let delta_start = token_start.saturating_sub(prev_token_start);
+            prev_token_start = token_start;
+            let length = token_end.saturating_sub(token_start);
             let token_type = abasic_token_type_to_lsp_token_type(*abasic_token_type);
             data.push(SemanticToken {
                 delta_line,
@@ -272,11 +290,13 @@ fn analyze_source_file(analyzer: &SourceFileAnalyzer) -> Vec<Diagnostic> {
     let messages = analyzer.messages();
     let mut diagnostics: Vec<Diagnostic> = vec![];
     let source_map = analyzer.source_file_map();
+    let source_lines = analyzer.source_file_lines();
     for message in messages {
         if let Some((line, range)) = source_map.map_to_source(&message) {
+            let source_line = source_lines.get(line).map(|line| line.as_str()).unwrap_or("");
             let diag_range = Range::new(
-                Position::new(line as u32, range.start as u32),
-                Position::new(line as u32, range.end as u32),
+                Position::new(line as u32, utf16_offset(source_line, range.start)),
+                Position::new(line as u32, utf16_offset(source_line, range.end)),
             );
             let (severity, content) = match message {
                 DiagnosticMessage::Warning(_line, _loc, msg) => {
